@@ -123,6 +123,7 @@ def c11():
             cal = {}
         calls = mism = 0
         slowest = 0
+        slowest_per_byte = 0.0
         samples = []
         reps = 1 if tr == "quick" else 3
         for d in pairs:
@@ -151,20 +152,38 @@ def c11():
                     samples.append({"tape": d["tape"], "bytes": repr(data), "spec_tokens": d["toks"], "real_tokens": got, "parse": rp.get("parse", "")[:80]})
         if mism:
             v.notes.append("%d token streams differ from the specification (conformance lost for the lexer)" % mism)
-        # (3) pumping: w^k parses in time linear in k (bound: 50 microseconds per byte + 0.2 s)
+        # (3) pumping: w^k and long runs of one class parse in time linear in the length (6 us per byte + 0.2 s; re-measured before judging)
         pumped = 0
-        for d in rng.sample(pairs, min(len(pairs), 120 if tr == "quick" else 600)):
-            if not d["tape"]:
-                continue
-            data, _ = concretize(d["tape"], rng, canonical=True)
-            big = data * (2000 if tr == "quick" else 6000)
-            rp = w.call({"op": "parse", "b64": b64(big)}, timeout=20)
+        target = 150000 if tr == "quick" else 600000
+
+        def timed(big):
+            best = None
+            for attempt in range(3):
+                rp = w.call({"op": "parse", "b64": b64(big)}, timeout=40)
+                if rp.get("hang") or "crash" in rp or "panic" in rp:
+                    return rp, None
+                best = rp.get("us", 0) if best is None else min(best, rp.get("us", 0))
+                if best <= 6 * len(big) + 200000:
+                    break
+            return rp, best
+
+        units = []
+        for d in rng.sample(pairs, min(len(pairs), 100 if tr == "quick" else 500)):
+            if d["tape"]:
+                units.append(concretize(d["tape"], rng, canonical=True)[0])
+        # one very long token / comment / white space of each kind
+        units += [b"a", b"1", b"9", b"_", b"'", b" ", b"\n", b"(", b"=>", b"<-", b"//", b"/*", b"/* */", b"a ", b"a1_'", b"-*", b"@"]
+        for data in units:
+            big = data * max(1, target // len(data))
+            rp, best = timed(big)
             pumped += 1
-            if rp.get("hang") or "crash" in rp or "panic" in rp:
+            if best is None:
                 v.violation("ParseString does not return on %r repeated %d times" % (data, len(big) // len(data)), {"unit_b64": b64(data), "repeat": len(big) // len(data)},
                             {"kind": "pump-hang" if rp.get("hang") else "pump-crash"})
-            elif rp.get("us", 0) > 50 * len(big) + 200000:
-                v.violation("parsing %d bytes of %r took %d us (super-linear?)" % (len(big), data, rp["us"]), {"unit_b64": b64(data)}, {"kind": "slow"})
+            elif best > 6 * len(big) + 200000:
+                v.violation("parsing %d bytes of %r repeated took %d us (not linear: the bound is 6 us per byte + 0.2 s)" % (len(big), data, best),
+                            {"unit_b64": b64(data), "repeat": len(big) // len(data), "us": best}, {"kind": "slow"})
+            slowest_per_byte = max(slowest_per_byte, best / max(1, len(big))) if best is not None else slowest_per_byte
         # (4) truncations and byte mutations of real programs
         trunc = 0
         texts = repo_texts()
@@ -185,7 +204,7 @@ def c11():
         cov = {"states": max(1, r["distinct"] + rl["distinct"]), "transitions": max(1, r["generated"] + rl["generated"]),
                "traces_validated_against_impl": calls - mism, "samples": samples, "tapes_enumerated": len(pairs), "max_tape_length": n,
                "alphabet_classes": len(REPS), "real_parse_calls": calls, "token_stream_mismatches": mism, "pumped_inputs": pumped,
-               "truncated_or_mutated_texts": trunc, "slowest_parse_us": slowest,
+               "truncated_or_mutated_texts": trunc, "slowest_parse_us": slowest, "pumped_length_bytes": target, "slowest_pumped_us_per_byte": round(slowest_per_byte, 4),
                "liveness_checked_up_to_length": min(n, 3), "exhaustive": True}
         vlib.write_evidence("C11", "model_checking", cov, time.time() - t0, len(v.violations),
                             ["all inputs over the 17 character classes of Scanner.tla up to the stated length (exhaustive), concretised with one canonical and random representatives per class; longer inputs only by pumping and by truncating / mutating real programs",
